@@ -108,6 +108,12 @@ def falsify(ctx):
         inputs = focus[i][0] if i < len(focus) else common.gen_inputs(rng, styled_p=0.85)
         cmps = (focus[i][1] if i < len(focus) else None) or common.cmps_choice(rng)
         job = common.gen_job(rng)
+        if i >= len(focus) and i % 15 == 7:
+            # class names that change between two renderings of ONE structure (unicode conversion off, then on)
+            ks = rng.sample(["größe", "адрес", "naïve", "straße", "données", "Ünit"], k=3)
+            inputs = [("Root", [{ks[0]: {"x": 1}, ks[1]: {"y": [{ks[2]: {"z": "s"}}]}, "n": 1}])]
+            job.update({"convertUnicode": True, "structureReuse": True})
+            job.pop("renderFirst", None)
         try:
             hit, skip = check_case(inputs, cmps, job, registry)
         except (ZeroDivisionError, stages.TooCostly):
